@@ -245,3 +245,4 @@ def check(ctx, rep):
     keyedrules.keyedset_eq(ctx, rep, "C14.EQ")
     keyedrules.keyedset_init(ctx, rep, "C14.INIT")
     keyedrules.key_precedence(ctx, rep, "C14.KEYFN")
+    shared.borrow(ctx, rep, "c13", {"C13.VAL": "C14.VAL"})      # KeyedBase._validate_item is shared by both containers
